@@ -241,6 +241,19 @@ def vsExport (m : Mesh) (v : VS) : List String :=
 /-- `getGatewayNames` contains `mesh` -/
 def vsOnMesh (v : VS) : Bool := v.gateways.isEmpty || v.gateways.contains "mesh"
 
+/-- `ResolveShortnameToFQDN` (config domain `cluster.local`): a name without a dot gets the config's
+    namespace and the Kubernetes service domain appended; `*`, the empty name and names with a dot are
+    left alone (IP addresses are not generated) -/
+def resolveShort (ns h : String) : String :=
+  if h == "" || h == "*" || h.contains '.' then h else h ++ "." ++ ns ++ ".svc.cluster.local"
+
+/-- `ResolveVirtualServiceShortnames`: hosts and every route destination -/
+def resolveVSNames (v : VS) : VS :=
+  let rd := fun (d : Dest) => { d with host := resolveShort v.ns d.host }
+  { v with hosts := v.hosts.map (resolveShort v.ns),
+           http := v.http.map (fun r => { r with dests := r.dests.map rd }),
+           tcp := v.tcp.map rd }
+
 /-- `resolveGatewayName` for the forms `mesh`, short name, `./name`, `ns/name` (a gateway-semantics
     VirtualService is not resolved) -/
 def resolveGw (v : VS) (g : String) : String :=
@@ -408,6 +421,8 @@ def trimHiddenAlias (guard : Bool) (m : Mesh) (svcs : List Svc) (ns : String) (s
 structure Listener where
   port : Nat := 0            -- IstioEgressListener.Port.Number
   httpProxy : Bool := false  -- Port.Protocol parses to HTTP_PROXY
+  proto : String := ""       -- Port.Protocol as written ("" = no Port at all: a catch-all listener)
+  bind : String := ""        -- IstioEgressListener.Bind (a unix domain socket path in the harness)
   hosts : List String
 deriving Repr, Inhabited
 
@@ -507,6 +522,21 @@ def gatewayVirtualServices (m : Mesh) (vss : List VS) (ns gw : String) : List VS
   vsPrivateGw m vss ns gw ++ vsExportedGw m vss ns gw ++
     pub.filter (fun v => v.gwSem && v.ns == ns) ++ pub.filter (fun v => !(v.gwSem && v.ns == ns))
 
+/-- `PushContext.GatewayServices` (PILOT_FILTER_GATEWAY_CLUSTER_CONFIG): of the services of the Router's
+    scope, those that are a destination of a VirtualService bound to one of the Gateways the Router serves
+    (`virtualServiceIndex.destinationsByGateway`; with PILOT_SCOPE_GATEWAY_TO_NAMESPACE only the routes
+    that apply to the Gateway's namespace count).  `gateways` = `MergedGateway.GatewayNameForServer`. -/
+def gatewayFilteredServices (nsScoped : Bool) (vss : List VS) (gateways : List String) (services : List Svc) : List Svc :=
+  let hosts := vss.flatMap fun v => (gwNamesOf v).flatMap fun g =>
+    if g == "mesh" || !gateways.contains g then []
+    else
+      let gwNs := match g.splitOn "/" with
+        | [_] => v.ns
+        | n :: _ => n
+        | [] => v.ns
+      (vsDestinations v (if nsScoped then gwNs else "")).map (·.1)
+  services.filter fun s => hosts.contains s.hostname
+
 /-! ### delegate VirtualServices (`mergeVirtualServices`) -/
 
 /-- the delegate `(ns, name)` a route of `root` refers to (namespace defaults to the root's) -/
@@ -519,10 +549,30 @@ def delegateVisible (m : Mesh) (d : VS) (rootNs : String) : Bool :=
   let e := vsExport m d
   e.contains "*" || e.contains rootNs
 
+/-- `mergeHTTPMatchRequests` for matches that only carry `sourceNamespace` (`hasConflict`: a root match
+    with a source namespace only admits delegate matches with the same one; `mergeHTTPMatchRequest`: the
+    delegate match, its empty source namespace filled from the root).  `none` = conflict (the delegate
+    route is ignored). -/
+def mergeSrcNs (root dlg : List String) : Option (List String) :=
+  if root.isEmpty then some dlg
+  else if dlg.isEmpty then some root
+  else
+    let per := dlg.map fun d => (root.filter fun r => r == "" || d == r).map fun _ => d
+    if per.any (·.isEmpty) then none
+    else
+      let out := per.flatMap id
+      if out.isEmpty then none else some out
+
+/-- `MergeHTTPRoutes`: every route of the delegate merged with the delegating route of the root -/
+def mergeDelegateRoutes (rootRoute : HttpRoute) (dlg : List HttpRoute) : List HttpRoute :=
+  dlg.filterMap fun r =>
+    match mergeSrcNs rootRoute.srcNs r.srcNs with
+    | none => none
+    | some srcs => some { r with srcNs := srcs }
+
 /-- the http routes of a root VirtualService after `mergeVirtualServices`: a delegating route is
-    replaced by the routes of its delegate when that exists and is exported to the root's namespace,
-    and dropped otherwise (roots delegate with an empty match, so the delegate routes are taken as
-    they are) -/
+    replaced by the (match-merged) routes of its delegate when that exists and is exported to the root's
+    namespace, and dropped otherwise -/
 def mergedHttp (m : Mesh) (all : List VS) (root : VS) : List HttpRoute :=
   root.http.flatMap fun r =>
     match r.delegate with
@@ -530,13 +580,13 @@ def mergedHttp (m : Mesh) (all : List VS) (root : VS) : List HttpRoute :=
     | some ref =>
       match findDelegate all root ref with
       | none => []
-      | some d => if delegateVisible m d root.ns then d.http else []
+      | some d => if delegateVisible m d root.ns then mergeDelegateRoutes r (resolveVSNames d).http else []
 
 /-- `mergeVirtualServices`: delegates (no hosts) are not VirtualServices of their own; roots carry the
     merged routes (an Ingress/Gateway-semantics VirtualService is not merged) -/
 def mergeVSs (m : Mesh) (all : List VS) : List VS :=
   (all.filter fun v => !v.hosts.isEmpty).map fun v =>
-    if v.gwSem then v else { v with http := mergedHttp m all v }
+    if v.gwSem then v else let r := resolveVSNames v; { r with http := mergedHttp m all r }
 
 /-! ### which Sidecar applies (`initSidecarScopes`, `getSidecarScope`) -/
 
